@@ -24,6 +24,12 @@ def free_port():
 
 
 def client_stream(rng, kind):
+    if kind == "bigburst":
+        # far more than any internal buffer, no pauses: the relay may run ahead of the parser, the report must still be truthful
+        out = b""
+        while len(out) < 90000:
+            out += pygen.frame(pygen.payload(rng, rng.choice([1005, 1230] + pygen.MSM), rng.randint(8, 40)))
+        return out
     if kind == "burst":
         # exactly k x 2048 bytes in one write, then silence: nothing may be withheld waiting for more
         out = b""
@@ -109,7 +115,7 @@ def session(ctx, binary, n, rng, kind):
         def pump(sock, data, seed):
             r = random.Random(seed)
             i = 0
-            if kind in ("bulk", "burst") and sock is cli:
+            if kind in ("bulk", "burst", "bigburst") and sock is cli:
                 try:
                     sock.sendall(data)      # all at once: the proxy's reads fill its buffer
                 except OSError:
@@ -223,8 +229,8 @@ def run(ctx, replay):
         raise vlib.Inconclusive("Proxy.tla with a crashing parser should violate StaysAlive (vacuity guard)")
     binary = build_binary(ctx, "proxy")
     rng = random.Random(ctx.seed * 104729 + 19)
-    kinds = ["valid", "malformed", "html", "random", "mixed", "many", "bulk", "burst", "bulk", "mixed", "html", "burst"]
-    nsess = 60 if ctx.thorough() else 12
+    kinds = ["valid", "malformed", "html", "random", "mixed", "many", "bulk", "burst", "bigburst", "bulk", "mixed", "html", "burst"]
+    nsess = 65 if ctx.thorough() else 13
     events = []
     for n in range(nsess):
         events.append(session(ctx, binary, n, rng, kinds[n % len(kinds)]))
